@@ -78,7 +78,7 @@ macro_rules! h_arc_clone {
         } }
     };
 }
-// @h props=C01,C04,C16 fuc=Arc::clone
+// @h props=C01,C04,C16,C03,C08,C09 fuc=Arc::clone
 h_arc_clone!(c01_arc_clone__tr8, Tr8, Arc::new(Tr8::new()));
 // @h props=C01,C04,C16 fuc=Arc::clone
 h_arc_clone!(c01_arc_clone__zst, Z, Arc::new(Z));
@@ -990,6 +990,27 @@ gproof! { fn c14_arc_hash_delegates() {
     core::mem::forget(a);
 } }
 
+// @h props=C14 fuc=Arc::hash note="payloads that occupy NO bytes still feed the hasher (str terminator, slice length prefix): a handle hashes exactly as the value it holds - empty str, empty slice, slices of zero-sized elements of two lengths"
+gproof! { #[kani::unwind(26)] fn c14_arc_hash_zero_byte_unsized_payloads() {
+    use core::hash::Hash;
+    fn same<T: ?Sized + Hash>(a: &Arc<T>) -> bool {
+        let (mut h1, mut h2) = (vrt::RecHasher::new(), vrt::RecHasher::new());
+        a.hash(&mut h1);
+        (**a).hash(&mut h2);
+        h1.n == h2.n && h1.n >= 1 && h1.bytes == h2.bytes
+    }
+    let s: Arc<str> = Arc::from("");
+    let e: Arc<[u32]> = Arc::from(&[][..]);
+    let z2: Arc<[()]> = Arc::from(alloc::vec![(), ()]);
+    let z3: Arc<[()]> = Arc::from(alloc::vec![(), (), ()]);
+    assert!(same(&s) && same(&e) && same(&z2) && same(&z3));
+    let (mut h2, mut h3) = (vrt::RecHasher::new(), vrt::RecHasher::new());
+    z2.hash(&mut h2);
+    z3.hash(&mut h3);
+    assert!(h2.bytes != h3.bytes);
+    core::mem::forget(s); core::mem::forget(e); core::mem::forget(z2); core::mem::forget(z3);
+} }
+
 // @h props=C14,C04 fuc=Arc::fmt(Debug),Arc::fmt(Display)
 gproof! { fn c14_arc_debug_display_delegate() {
     let n = any_count();
@@ -1559,6 +1580,56 @@ pub(crate) mod uns_h {
         core::mem::forget(x);
     } }
 }
+
+// ------------------------------------------------------------------------------------------
+// Provided trait methods are entry points too: Clone::clone_from (default `*self = source.clone()`).
+// After `a.clone_from(&b)`: a is one more owner of b's allocation, a's previous allocation lost exactly
+// one owner (and is destroyed/freed iff that was the last); on the SAME allocation nothing changes.
+// ------------------------------------------------------------------------------------------
+// @h props=C01,C04 fuc=Arc::clone_from,Arc::clone,Arc::drop
+gproof! { fn c01_arc_clone_from__other_block() {
+    let (n, m) = (any_count(), any_count());
+    let mut a = mk(Tr8::new(), n);
+    let b = mk(Tr8::new(), m);
+    let (ba, bb, ca, cb, ida, idb) = (base(&a), base(&b), cw(&a), cw(&b), a.id, b.id);
+    a.clone_from(&b);
+    assert!(base(&a) == bb && a.id == idb && rd(cb) == m + 1 && vrt::clones() == 0 && vrt::ga(2));
+    if n == 1 {
+        assert!(!vrt::g_live(ba) && vrt::dropped(ida) && vrt::drops() == 1 && vrt::gd(1));
+    } else {
+        assert!(rd(ca) == n - 1 && vrt::glive_at(ba) && vrt::drops() == 0 && vrt::gd(0));
+    }
+    kani::cover!(n == 1, "previous allocation destroyed");
+    core::mem::forget(a);
+    core::mem::forget(b);
+} }
+// @h props=C01,C04 fuc=Arc::clone_from note="source and destination already share the allocation"
+gproof! { fn c01_arc_clone_from__same_block() {
+    let n = any_count();
+    kani::assume(n > 1);
+    let mut a = mk(Tr8::new(), n);
+    let b = core::mem::ManuallyDrop::new(unsafe { core::ptr::read(&a) });
+    let (ba, ca) = (base(&a), cw(&a));
+    a.clone_from(&b);
+    assert!(base(&a) == ba && rd(ca) == n && vrt::drops() == 0 && vrt::clones() == 0 && vrt::ga(1) && vrt::gd(0));
+    core::mem::forget(a);
+} }
+// @h props=C01,C04 fuc=OffsetArc::clone_from,OffsetArc::clone,OffsetArc::drop
+gproof! { fn c01_offset_clone_from__other_block() {
+    let (n, m) = (any_count(), any_count());
+    let mut a = Arc::into_raw_offset(mk(Tr8::new(), n));
+    let b = Arc::into_raw_offset(mk(Tr8::new(), m));
+    let (ba, bb, ca, cb, ida) = (vrt::obase(&a), vrt::obase(&b), vrt::ocw(&a), vrt::ocw(&b), a.id);
+    a.clone_from(&b);
+    assert!(vrt::obase(&a) == bb && rd(cb) == m + 1 && vrt::ga(2));
+    if n == 1 {
+        assert!(!vrt::g_live(ba) && vrt::dropped(ida) && vrt::drops() == 1 && vrt::gd(1));
+    } else {
+        assert!(rd(ca) == n - 1 && vrt::glive_at(ba) && vrt::drops() == 0 && vrt::gd(0));
+    }
+    core::mem::forget(a);
+    core::mem::forget(b);
+} }
 
 // ------------------------------------------------------------------------------------------
 // Check mode (#[kani::proof_for_contract]): requires assumed, body executed, ensures asserted, and
